@@ -692,9 +692,9 @@ pub trait QueryBuilder:
         length: usize,
         sql: &mut dyn SqlWriter,
     ) {
-        let (simple_expr, oper) = match log_chain_oper {
-            LogicalChainOper::And(simple_expr) => (simple_expr, "AND"),
-            LogicalChainOper::Or(simple_expr) => (simple_expr, "OR"),
+        let (simple_expr, oper, bin_oper) = match log_chain_oper {
+            LogicalChainOper::And(simple_expr) => (simple_expr, "AND", BinOper::And),
+            LogicalChainOper::Or(simple_expr) => (simple_expr, "OR", BinOper::Or),
         };
         if i > 0 {
             write!(sql, " {oper} ").unwrap();
@@ -705,7 +705,10 @@ pub trait QueryBuilder:
             }
             _ => false,
         };
-        let need_parentheses = length > 1 && both_binary;
+        // A member keeps its meaning inside the chain only if it binds tighter than AND / OR
+        let need_parentheses = length > 1
+            && (both_binary
+                || !self.inner_expr_well_known_greater_precedence(simple_expr, &bin_oper.into()));
         if need_parentheses {
             write!(sql, "(").unwrap();
         }
